@@ -321,6 +321,44 @@ func ruleResourcePairing(c *eng.Ctx) {
 				}
 			}
 			walkRefs(handle, 0)
+			// a deferred closure that closes the handle when the function's error result is set:
+			// defer func() { if err != nil { zr.Close() } }()
+			var errCloser *ssa.Defer
+			eng.Instrs(fn, false, func(in ssa.Instruction) {
+				df, ok := in.(*ssa.Defer)
+				if !ok {
+					return
+				}
+				mc, ok := df.Call.Value.(*ssa.MakeClosure)
+				if !ok {
+					return
+				}
+				lit, _ := mc.Fn.(*ssa.Function)
+				if lit == nil || lit.Parent() != fn {
+					return
+				}
+				closesIt, testsErr := false, false
+				eng.Instrs(lit, false, func(in2 ssa.Instruction) {
+					if cc, ok := in2.(ssa.CallInstruction); ok {
+						com := cc.Common()
+						name := ""
+						if com.IsInvoke() {
+							name = com.Method.Name()
+						} else if f := com.StaticCallee(); f != nil {
+							name = f.Name()
+						}
+						if name == "Close" {
+							closesIt = true
+						}
+					}
+					if b, ok := in2.(*ssa.BinOp); ok && b.Op == token.NEQ && (eng.IsErrorType(b.X.Type()) || eng.IsErrorType(b.Y.Type())) {
+						testsErr = true
+					}
+				})
+				if closesIt && testsErr {
+					errCloser = df
+				}
+			})
 			// success successor of the `err != nil` test on the acquisition
 			start := call.Block().Succs
 			reach := eng.ReachableBlocks(start, closes)
@@ -344,6 +382,9 @@ func ruleResourcePairing(c *eng.Ctx) {
 					if known && !nn {
 						isErr = false
 					}
+				}
+				if isErr && errCloser != nil && (errCloser.Block() == b || errCloser.Block().Dominates(b)) {
+					continue // the deferred closure closes the handle on every return that sets the error
 				}
 				if isErr {
 					leaks = append(leaks, "error return at "+c.P.Pos(r.Pos())+" without closing the handle")
@@ -442,7 +483,27 @@ func acquisitionFailed(b *ssa.BasicBlock, call *ssa.Call) bool {
 			return false
 		}
 		op, x, y, ok := f.Cmp()
-		return ok && op == token.NEQ && ((x == errv && eng.IsNilConst(y)) || (y == errv && eng.IsNilConst(x)))
+		if !ok || op != token.NEQ {
+			return false
+		}
+		isErr := func(v ssa.Value) bool {
+			if v == errv {
+				return true
+			}
+			// the named error result, kept in a cell because a deferred closure reads it: a load of the cell the
+			// acquisition's error was stored into
+			if ld, ok := v.(*ssa.UnOp); ok && ld.Op == token.MUL {
+				if al, ok := ld.X.(*ssa.Alloc); ok && al.Referrers() != nil {
+					for _, r := range *al.Referrers() {
+						if st, ok := r.(*ssa.Store); ok && st.Addr == ssa.Value(al) && st.Val == errv && st.Block().Dominates(ld.Block()) {
+							return true
+						}
+					}
+				}
+			}
+			return false
+		}
+		return (isErr(x) && eng.IsNilConst(y)) || (isErr(y) && eng.IsNilConst(x))
 	}, nil)
 	return m[b]
 }
